@@ -187,7 +187,7 @@ func (cj *CookieJar) dumpCookiesToReq(req *fasthttp.Request) {
 }
 
 // parseCookiesFromResp parses the cookies from the response and stores them for the specified host and path.
-func (cj *CookieJar) parseCookiesFromResp(host, path []byte, resp *fasthttp.Response) {
+func (cj *CookieJar) parseCookiesFromResp(host, _ []byte, resp *fasthttp.Response) {
 	hostStr := utils.UnsafeString(host)
 
 	cj.mu.Lock()
@@ -199,22 +199,41 @@ func (cj *CookieJar) parseCookiesFromResp(host, path []byte, resp *fasthttp.Resp
 
 	cookies, ok := cj.hostCookies[hostStr]
 	if !ok {
-		// If the key does not exist in the map, make a copy to avoid unsafe usage.
+		// If the host does not exist in the map, store it as a string.
 		hostStr = string(host)
 	}
 
 	now := time.Now()
-	resp.Header.VisitAllCookie(func(key, value []byte) {
-		created := false
-		c := searchCookieByKeyAndPath(key, path, cookies)
-		if c == nil {
-			c, created = fasthttp.AcquireCookie(), true
+	resp.Header.VisitAllCookie(func(_, value []byte) {
+		c := fasthttp.AcquireCookie()
+		if err := c.ParseBytes(value); err != nil {
+			fasthttp.ReleaseCookie(c)
+			return
 		}
 
-		_ = c.ParseBytes(value) //nolint:errcheck // ignore error
-		if c.Expire().Equal(fasthttp.CookieExpireUnlimited) || c.Expire().After(now) {
+		// A cookie is identified by its own name and path: the new one replaces a stored
+		// one, an expired one (a deletion by the server) removes it.
+		idx := -1
+		for i, stored := range cookies {
+			// (no path and "/" are the same path)
+			if bytes.Equal(stored.Key(), c.Key()) &&
+				(bytes.Equal(stored.Path(), c.Path()) || (len(stored.Path()) <= 1 && len(c.Path()) <= 1)) {
+				idx = i
+				break
+			}
+		}
+		alive := c.Expire().Equal(fasthttp.CookieExpireUnlimited) || c.Expire().After(now)
+		switch {
+		case idx >= 0 && alive:
+			fasthttp.ReleaseCookie(cookies[idx])
+			cookies[idx] = c
+		case idx >= 0:
+			fasthttp.ReleaseCookie(cookies[idx])
+			cookies = append(cookies[:idx], cookies[idx+1:]...)
+			fasthttp.ReleaseCookie(c)
+		case alive:
 			cookies = append(cookies, c)
-		} else if created {
+		default:
 			fasthttp.ReleaseCookie(c)
 		}
 	})
